@@ -237,3 +237,6 @@ def lifecycle(cfl: int, ci: int, ei: int, second: bool) -> str:
     post: _ == ''
     """
     return verdict(untraced(_lifecycle, cfl, ci, ei, second))
+
+
+from vf.validate.stubs import ALL as VALIDATE  # noqa: E402  (stub-vs-real conformance, run before the obligations)
